@@ -410,7 +410,25 @@ struct forest
       eq.el_raw(vj::arr(e));
       ne.el_raw(vj::arr(n));
     }
-    return "\"slots\":" + sl.str() + ",\"eq\":" + eq.str() + ",\"ne\":" + ne.str();
+    // child_position(P, C) for EVERY ordered pair of live nodes of the forest - children, the node
+    // itself, grandchildren, siblings, nodes of other slots: the offset of C in P's child list,
+    // -1 if child_position returns nothing ("Returns an iterator pointing to the position in the
+    // parent's child container where this object resides")
+    std::vector<long> cpn;
+    vj::J cpall('[');
+    for (Entry const &p : table) cpn.push_back(static_cast<long>(p.slot) * 1000 + p.idx);
+    for (Entry const &p : table)
+    {
+      std::vector<long> row;
+      for (Entry const &c : table)
+      {
+        auto const pos = fcppt::container::tree::child_position(*p.ptr, *c.ptr);
+        row.push_back(pos.has_value() ? static_cast<long>(std::distance(p.ptr->begin(), pos.get_unsafe())) : -1L);
+      }
+      cpall.el_raw(vj::arr(row));
+    }
+    return "\"slots\":" + sl.str() + ",\"eq\":" + eq.str() + ",\"ne\":" + ne.str() + ",\"cpn\":" + vj::arr(cpn) +
+           ",\"cpall\":" + cpall.str();
   }
 
   void reset_all()
